@@ -31,7 +31,7 @@ TSAN = os.path.join(vlib.VERIF, "_build", "tsan")
 # Findings that are reproduced on the current tree, reported to the coordinator and whose repair is
 # pending (NOTES.md, F-C07-1).  While a signature is listed here it is logged as a note instead of a
 # VIOLATION; REMOVE the entry once the repair is committed so that a regression is a plain violation.
-PENDING_FIX = {"tsan:celeritas::ActionDiagnostic"}
+PENDING_FIX = set()   # F-C07-1 (tsan:celeritas::ActionDiagnostic) repaired in /repo 63841d1: a regression is a plain VIOLATION
 SLOTS = 8
 
 
